@@ -224,6 +224,7 @@ int32_t jls_twr_open(struct jls_twr_s ** instance, const char * path) {
     self->wr = wr;
     self->flush_send_id = 0;
     self->flush_processed_id = 0;
+    memset(self->fsr_entry_size_bits, 0, sizeof(self->fsr_entry_size_bits));
 
     jls_mrb_init(&self->mrb, self->mrb_buffer, MRB_BUFFER_SIZE);
     self->bk = jls_bkt_initialize(self);
@@ -327,8 +328,10 @@ int32_t jls_twr_source_def(struct jls_twr_s * self, const struct jls_source_def_
 
 int32_t jls_twr_signal_def(struct jls_twr_s * self, const struct jls_signal_def_s * signal) {
     jls_bkt_process_lock(self->bk);
-    self->fsr_entry_size_bits[signal->signal_id] = jls_datatype_parse_size(signal->data_type);
     int32_t rv = jls_wr_signal_def(self->wr, signal);
+    if ((0 == rv) && (signal->signal_id < JLS_SIGNAL_COUNT)) {
+        self->fsr_entry_size_bits[signal->signal_id] = jls_datatype_parse_size(signal->data_type);
+    }
     jls_bkt_process_unlock(self->bk);
     return rv;
 }
@@ -365,7 +368,18 @@ int32_t jls_twr_fsr(struct jls_twr_s * self, uint16_t signal_id,
             },
             .d = 0
     };
-    uint32_t length = (data_length * self->fsr_entry_size_bits[signal_id] + 7) / 8;
+    if (signal_id >= JLS_SIGNAL_COUNT) {
+        return JLS_ERROR_PARAMETER_INVALID;
+    }
+    uint8_t entry_size_bits = self->fsr_entry_size_bits[signal_id];
+    if (0 == entry_size_bits) {
+        return JLS_ERROR_NOT_FOUND;  // not defined as an FSR signal: the payload size is unknown
+    }
+    uint64_t length_u64 = (((uint64_t) data_length) * entry_size_bits + 7) / 8;
+    if (length_u64 > (UINT32_MAX - sizeof(hdr))) {
+        return JLS_ERROR_TOO_BIG;  // the payload size does not fit the message size field
+    }
+    uint32_t length = (uint32_t) length_u64;
     int32_t rc;
     if (self->flags & JLS_TWR_FLAG_DROP_ON_OVERFLOW) {
         rc = msg_send_inner(self, &hdr, (const uint8_t *) data, length);
